@@ -11,6 +11,7 @@ mod cmd_compare;
 mod cmd_linkage;
 mod cmd_setmeta;
 mod cmd_setmachine;
+mod cmd_export;
 mod cmd_group;
 mod cmd_termid;
 mod cmd_cats;
@@ -48,6 +49,7 @@ fn main() {
         "record-linkage" => cmd_linkage::record(&args),
         "replay-setmeta" => cmd_setmeta::run(&args),
         "replay-setmachine" => cmd_setmachine::run(&args),
+        "replay-export" => cmd_export::run(&args),
         "replay-group" => cmd_group::run(&args),
         "replay-termid" => cmd_termid::run(&args),
         "replay-cats" => cmd_cats::run(&args),
@@ -81,6 +83,7 @@ fn main() {
                 "replay-order" => cmd_order::replay_one(&v),
                 "replay-sub" => cmd_sub::replay_one(&v),
                 "replay-setmachine" => cmd_setmachine::replay_one(&v),
+                "replay-export" => cmd_export::replay_one(&v),
                 other => {
                     eprintln!("unknown replay cmd {other}");
                     std::process::exit(2)
